@@ -153,6 +153,7 @@ void World::opMkConst(const Step &s)
     const Dom &D = doms[F.spec.dom].m;
     EdgeSlot* res = newEdge(s.client, fi);
     desc << en(*res) << " = constant " << c.str() << " in " << fn(fi);
+    if (tracing) { fprintf(stderr, "   doing: %s\n", desc.str().c_str()); fflush(stderr); }
     res->tab = Table::constant(D, F.spec.rel, c);
     try {
         F.f->createConstant(toRangeval(F.kind(), c), *res->e);
@@ -198,6 +199,7 @@ void World::opMkVar(const Step &s)
     }
     EdgeSlot* res = newEdge(s.client, fi);
     desc << en(*res) << " = variable x" << v << (pr ? "'" : "") << " in " << fn(fi) << " terms";
+    if (tracing) { fprintf(stderr, "   doing: %s\n", desc.str().c_str()); fflush(stderr); }
     if (custom) for (int i = 0; i < sz; i++) desc << " " << terms[i].str(); else desc << " default";
     res->tab = Table::constant(D, F.spec.rel, defaultOf(F.kind()));
     const long total = long(res->tab.v.size());
@@ -232,7 +234,7 @@ void World::opMkMinterm(const Step &s)
     SymMT sm;
     genSym(R, D, F.spec.rel, sm, s.a[1] % 60, s.a[2] % 40);
     Val deflt = defaultOf(F.kind());
-    Val val = randomValue(R, F.kind(), ((s.a[3] >> 3) % 5 == 0) ? 3 : 0);
+    Val val = randomValue(R, F.kind(), ((s.a[3] >> 3) % 5 == 0) ? 3 : (((s.a[3] >> 3) % 5 == 1) ? 4 : 0));
     if (F.kind() == FK_MTB) val = Val::b(true);
     if (val.inf && F.kind() != FK_EVP) val = defaultOf(F.kind());
     // KF-C03-1 (known_findings.txt): a minterm whose value is the forest's
@@ -253,6 +255,7 @@ void World::opMkMinterm(const Step &s)
     }
     EdgeSlot* res = newEdge(s.client, fi);
     desc << en(*res) << " = minterm " << symStr(sm, F.spec.rel) << " value " << val.str() << " default " << deflt.str() << " in " << fn(fi);
+    if (tracing) { fprintf(stderr, "   doing: %s\n", desc.str().c_str()); fflush(stderr); }
     res->tab = Table::constant(D, F.spec.rel, deflt);
     const long total = long(res->tab.v.size());
     for (long i = 0; i < total; i++) {
@@ -289,7 +292,9 @@ void World::opMkColl(const Step &s, bool useMax)
     Rng R(s.seed);
     const unsigned cnt = 1 + s.a[1] % 12;
     std::vector<SymMT> ms(cnt);
-    const int vflavour = ((s.a[4] >> 4) % 5 == 0) ? 3 : 0;     // 3: wide values (EV+ beyond 32 bits)
+    // 3: wide values (EV+ beyond 32 bits); 4: the neutral and absorbing
+    // elements the operations' shortcut predicates look for
+    const int vflavour = ((s.a[4] >> 4) % 5 == 0) ? 3 : (((s.a[4] >> 4) % 5 == 1) ? 4 : 0);
     for (unsigned i = 0; i < cnt; i++) {
         genSym(R, D, F.spec.rel, ms[i], s.a[2] % 50, s.a[3] % 40);
         // one entry in five repeats the pattern of an earlier entry exactly
@@ -298,7 +303,8 @@ void World::opMkColl(const Step &s, bool useMax)
         ms[i].val = randomValue(R, F.kind(), vflavour);
         if (F.kind() == FK_MTB) ms[i].val = Val::b(true);
         if (ms[i].val.inf && F.kind() != FK_EVP) ms[i].val = defaultOf(F.kind());
-        // KF-C03-1: values equal to the transparent value only in the probe plan
+        // KF-C03-1 / KF-C03-2: values equal to the forest's transparent value
+        // (0 in MT forests, +infinity in EV+) only in the probe plans
         if (s.a[5] != 999 && ms[i].val.same(defaultOf(F.kind()))) {
             switch (F.kind()) {
                 case FK_MTI: ms[i].val = Val::n(1 + long(i % 5)); break;
@@ -345,6 +351,7 @@ void World::opMkColl(const Step &s, bool useMax)
     }
     EdgeSlot* res = newEdge(s.client, fi);
     desc << en(*res) << " = collection " << (useMax ? "max" : "min") << " default " << deflt.str() << " in " << fn(fi) << ":";
+    if (tracing) { fprintf(stderr, "   doing: %s\n", desc.str().c_str()); fflush(stderr); }
     for (auto &m : ms) desc << " " << symStr(m, F.spec.rel) << "=" << m.val.str();
     res->tab = Table::constant(D, F.spec.rel, deflt);
     const long total = long(res->tab.v.size());
@@ -387,7 +394,17 @@ void World::opMkColl(const Step &s, bool useMax)
 // ----------------------------------------------------------------------
 void World::opBinary(const Step &s)
 {
-    const BinOp op = BinOp(s.a[0] % BO_NUM);
+    // choose among the operations that have operands at all: set algebra
+    // needs boolean edges, everything else needs non-boolean ones
+    bool haveBool = false, haveNum = false;
+    for (const EdgeSlot* e : edges) {
+        if (e->forest < 0 || !forests[e->forest].alive) continue;
+        const FKind k = forests[e->forest].kind();
+        if (k == FK_MTB) haveBool = true; else if (k != FK_IDX) haveNum = true;
+    }
+    BinOp op = BinOp(s.a[0] % BO_NUM);
+    if (haveBool && !haveNum) op = BinOp(s.a[0] % 3);
+    else if (haveNum && !haveBool) op = BinOp(3 + s.a[0] % (BO_NUM - 3));
     cur_family = (op <= BO_DIFFERENCE) ? "setalg" : "arith";
     std::vector<size_t> ca = edgesWhere([&](const EdgeSlot &e) {
         if (e.forest < 0 || !forests[e.forest].alive) return false;
@@ -448,11 +465,24 @@ void World::opBinary(const Step &s)
     }
     if (!oracle || merr == ME_UNDEFINED) oracle = false;
 
+    // 64-bit overflow of EV+ values is outside every property: keep products
+    // and sums of the wide values away from it
+    if (FA.kind() == FK_EVP && (op == BO_MULTIPLY || op == BO_PLUS || op == BO_MINUS)) {
+        double ma = 0, mb = 0;
+        for (const Val &v : A.tab.v) if (!v.inf && std::fabs(double(v.i)) > ma) ma = std::fabs(double(v.i));
+        for (const Val &v : B.tab.v) if (!v.inf && std::fabs(double(v.i)) > mb) mb = std::fabs(double(v.i));
+        const double lim = 4.0e18;
+        if ((op == BO_MULTIPLY && ma * mb > lim) || (op != BO_MULTIPLY && ma + mb > lim) || !A.oracle || !B.oracle) {
+            if (ma > 2147483648.0 || mb > 2147483648.0) { note(OC_SKIP); return; }
+        }
+    }
+
     // snapshot operands (never changed by the operation)
     dd_edge ca_copy(*A.e), cb_copy(*B.e);
 
     EdgeSlot* res = newEdge(s.client, ri);
     desc << en(*res) << " = " << binName(op) << "(" << en(A) << ", " << en(B) << ") in " << fn(ri);
+    if (tracing) { fprintf(stderr, "   doing: %s\n", desc.str().c_str()); fflush(stderr); }
     bool threw = false;
     std::string ename;
     error::code ecode = error::code(0);
@@ -547,6 +577,7 @@ void World::opComplement(const Step &s)
     dd_edge a_copy(*A.e);
     EdgeSlot* res = newEdge(s.client, ri);
     desc << en(*res) << " = COMPLEMENT(" << en(A) << ") in " << fn(ri);
+    if (tracing) { fprintf(stderr, "   doing: %s\n", desc.str().c_str()); fflush(stderr); }
     res->tab = A.tab;
     res->oracle = A.oracle;
     for (Val &x : res->tab.v) x = Val::b(!x.i);
@@ -590,6 +621,7 @@ void World::opCopy(const Step &s)
     ForRT &FR = forests[ri];
     EdgeSlot* res = newEdge(s.client, ri);
     desc << en(*res) << " = COPY(" << en(A) << " from " << fn(A.forest) << ") into " << fn(ri) << ((s.a[2] & 1) ? " and back" : "");
+    if (tracing) { fprintf(stderr, "   doing: %s\n", desc.str().c_str()); fflush(stderr); }
     res->tab = A.tab;
     res->oracle = A.oracle;
     // there-and-back identity is claimed where no information can be lost:
@@ -662,6 +694,7 @@ void World::opCopyEdge(const Step &s)
     res->id = freshEdgeId();
     edges.push_back(res);
     desc << en(*res) << " = dd_edge(" << en(A) << ")";
+    if (tracing) { fprintf(stderr, "   doing: %s\n", desc.str().c_str()); fflush(stderr); }
     if (A.forest >= 0 && *res->e != *A.e) {
         failNow("I2", cur_family, "a copied edge is not equal to its source");
         return;
@@ -677,6 +710,7 @@ void World::opAssign(const Step &s)
     EdgeSlot &T = *edges[pickAny(s.a[0])];
     EdgeSlot &S = *edges[pickAny(s.a[1])];
     desc << en(T) << " := " << en(S);
+    if (tracing) { fprintf(stderr, "   doing: %s\n", desc.str().c_str()); fflush(stderr); }
     if (!checkEdge(T, "I1", cur_family, "edge about to be overwritten")) return;
     if (!checkEdge(S, "I1", cur_family, "assignment source")) return;
     *T.e = *S.e;
@@ -693,6 +727,7 @@ void World::opRelease(const Step &s)
     if (edges.empty()) { note(OC_SKIP); return; }
     const size_t victim = pickAny(s.a[0]);
     desc << "release " << en(*edges[victim]);
+    if (tracing) { fprintf(stderr, "   doing: %s\n", desc.str().c_str()); fflush(stderr); }
     if (!checkEdge(*edges[victim], "I1", cur_family, "edge about to be released")) return;
     dropEdge(victim);
     note(OC_OK);
@@ -706,6 +741,7 @@ void World::opDrain(const Step &s)
     int fi = pickForest(s.a[0], [](const ForRT &) { return true; });
     if (fi < 0) { note(OC_SKIP); return; }
     desc << "drain " << fn(fi) << " (release every edge, clear caches mode " << s.a[1] % 3 << ")";
+    if (tracing) { fprintf(stderr, "   doing: %s\n", desc.str().c_str()); fflush(stderr); }
     for (size_t i = edges.size(); i; ) {
         --i;
         if (edges[i]->forest != fi) continue;
@@ -745,6 +781,7 @@ void World::opMassCopy(const Step &s)
     unsigned n = counts[s.a[1] % (plan.prop == "THOROUGH" ? 4 : 3)];
     if (s.a[2] == 777) n = 70000;
     desc << n << " copies of " << en(A) << ", then release";
+    if (tracing) { fprintf(stderr, "   doing: %s\n", desc.str().c_str()); fflush(stderr); }
     std::vector<dd_edge*> cp;
     cp.reserve(n);
     for (unsigned i = 0; i < n; i++) cp.push_back(new dd_edge(*A.e));
@@ -788,6 +825,7 @@ void World::opHoard(const Step &s)
     for (unsigned i = 0; i < n; i++) H->copies.push_back(new dd_edge(*A.e));
     hoards.push_back(H);
     desc << "hold " << n << " copies of " << en(A);
+    if (tracing) { fprintf(stderr, "   doing: %s\n", desc.str().c_str()); fflush(stderr); }
     stats.fired["counter_excursion"]++;
     note(OC_OK, uint64_t(n));
 }
@@ -804,6 +842,7 @@ void World::opUnhoard(const Step &s)
     size_t keep = stay[s.a[1] % 9];
     if (keep >= H->copies.size()) keep = H->copies.size() / 2;
     desc << "release copies of e" << H->id << "@F" << H->forest << ": " << H->copies.size() << " -> " << keep;
+    if (tracing) { fprintf(stderr, "   doing: %s\n", desc.str().c_str()); fflush(stderr); }
     // check before releasing
     if (H->forest >= 0 && forests[H->forest].alive && !H->copies.empty()) {
         EdgeSlot tmp; tmp.forest = H->forest; tmp.tab = H->tab; tmp.oracle = H->oracle; tmp.e = H->copies.back();
@@ -834,6 +873,7 @@ void World::opDetachAttach(const Step &s)
     if (edges.empty()) { note(OC_SKIP); return; }
     EdgeSlot &A = *edges[pickAny(s.a[0])];
     desc << "detach " << en(A);
+    if (tracing) { fprintf(stderr, "   doing: %s\n", desc.str().c_str()); fflush(stderr); }
     A.e->detach();
     A.forest = -1;
     if (false && (s.a[1] & 1)) {
@@ -858,6 +898,7 @@ void World::opPurge(const Step &s)
     cur_family = "purge";
     stats.purges++;
     desc << "purge mode " << s.a[0] % 4;
+    if (tracing) { fprintf(stderr, "   doing: %s\n", desc.str().c_str()); fflush(stderr); }
     switch (s.a[0] % 4) {
         case 0:
             if (compute_table::removeStalesFromMonolithic()) stats.fired["purge_stales"]++;
@@ -917,6 +958,7 @@ void World::opRebuild(const Step &s)
     dd_edge built(F.f);
     const unsigned path = s.a[1] % 2;
     desc << "rebuild " << en(A) << " (" << pts.size() << " points) along path " << path << " in " << fn(A.forest);
+    if (tracing) { fprintf(stderr, "   doing: %s\n", desc.str().c_str()); fflush(stderr); }
     try {
         // EV+ default is +inf: combine by min; MT: default 0 and arbitrary
         // values: build by layering with a value-wise approach
